@@ -16,6 +16,7 @@
 import StVerif.Lemmas.FmtRun
 import StVerif.Lemmas.UtfString
 import StVerif.Lemmas.KernelPadSize
+import StVerif.Lemmas.KernelNumericString
 
 namespace StVerif.Props.C11
 open StVerif StVerif.Fmt StVerif.Lemmas.Fmt
@@ -237,5 +238,19 @@ theorem translated_pad_size_is_model (f : FormatSpec) (size : Nat) (nt : StVerif
     StVerif.Generated.Kernels.pad_size f.minimumLength (if f.alwaysSigned then 1 else 0) (if f.classPrefix then 1 else 0)
       (KernelBridge.digitCode f.digitClass) size (KernelBridge.numCode nt) = .ok (StVerif.Fmt.padSize f size nt) :=
   KernelBridge.pad_size_eq f size nt hmin hsize
+
+/-- `_ST_PRIVATE::format_numeric_prefix` and `format_numeric_string` as translated from include/st_format_priv.h on every
+    run (the sink as the list of its `append` / `append_char` calls) are the model's `numericPrefix` and
+    `formatNumericString`: sign, radix prefix, padding and digits in the order the alignment and the '0' flag select, for
+    every field specification and every digit text; the digit text is the only thing read, no signed overflow occurs -/
+theorem translated_numeric_layout_is_model (f : FormatSpec) (text : List Nat) (nt : StVerif.Fmt.NumType)
+    (hpad : f.pad < 256) (hmin : -(2:Int)^31 ≤ f.minimumLength ∧ f.minimumLength < (2:Int)^31) (hlen : text.length < 2 ^ 62) :
+    StVerif.Generated.Kernels.format_numeric_prefix (if f.alwaysSigned then 1 else 0) (if f.classPrefix then 1 else 0)
+      (KernelBridge.digitCode f.digitClass) (KernelBridge.numCode nt) = .ok ((StVerif.Fmt.numericPrefix f nt).map KernelBridge.ofEvent) ∧
+    StVerif.Generated.Kernels.format_numeric_string text (StVerif.Cxx.toChar f.pad) f.minimumLength
+      (if f.alwaysSigned then 1 else 0) (if f.classPrefix then 1 else 0) (KernelBridge.digitCode f.digitClass)
+      (if f.numericPad then 1 else 0) (KernelBridge.alignCode f.alignment) 0 text.length (KernelBridge.numCode nt)
+      = .ok ((StVerif.Fmt.formatNumericString f text nt).map KernelBridge.ofEvent) :=
+  ⟨KernelBridge.format_numeric_prefix_eq f nt, KernelBridge.format_numeric_string_eq' f text nt hpad hmin hlen⟩
 
 end StVerif.Props.C11
